@@ -1,5 +1,5 @@
 (* C04 — serialisation always emits the canonical well-formed form. *)
-From UL Require Import Bytes Subtags LangId Ext Likely Inst Ops Grammar LangIdSpec LocaleInv Canonical LangIdProofs CanonProofs InvProofs TablesData OpsInvProofs LengthProofs LocaleLength RoundTrip CanonLocale CanonLocaleProofs AbstractLocale LocaleSpec StringLevel LocaleGrammar LocaleGrammarProofs PrintGrammar.
+From UL Require Import Bytes Subtags LangId Ext Likely Inst Ops Grammar LangIdSpec LocaleInv Canonical LangIdProofs CanonProofs InvProofs TablesData OpsInvProofs LengthProofs LocaleLength RoundTrip CanonLocale CanonLocaleProofs AbstractLocale LocaleSpec StringLevel LocaleGrammar LocaleGrammarProofs PrintGrammar PrintZone.
 From Coq Require Import String.
 
 (* every LanguageIdentifier satisfying the safe-API invariant prints as canonical text: only ASCII
@@ -75,6 +75,11 @@ Theorem C04_printed_is_in_the_grammar : forall l, loc_inv l = true ->
   forallb (fun kv => negb (nil_b (snd kv))) (t_fields (e_transform (loc_ext l))) = true ->
   WFLocale (loc_tokens l) l.
 Proof. exact printed_is_wellformed. Qed.
+(* without any side condition: what an invariant-satisfying Locale prints is read by the grammar as the value itself -
+   strictly (MustAccept), or leniently (Either) exactly when a tfield has no value; never MustReject, never Outside *)
+Theorem C04_printed_zone : forall l, loc_inv l = true ->
+  exists st : bool, spec_locale_zone (loc_tokens l) = (if st then MustAccept l else Either l).
+Proof. exact printed_zone. Qed.
 Example C04_printed_ex :
   let l := mkLoc (mkLangId (Some (bs "en")) None (Some (bs "US")) None)
                  (mkE (mkU [(bs "ca", [bs "buddhist"])] [bs "attr"]) (mkT (Some (mkLangId (Some (bs "de")) None None None)) [(bs "h0", [bs "hybrid"])]) [bs "foo"])%string in
@@ -83,6 +88,7 @@ Example C04_printed_ex :
 Proof. vm_compute. repeat split; reflexivity. Qed.
 
 Print Assumptions C04_printed_is_in_the_grammar.
+Print Assumptions C04_printed_zone.
 Print Assumptions C04_locale_canonical.
 Print Assumptions C04_canonicalize_not_longer.
 Print Assumptions C04_locale_canonicalize_not_longer.
